@@ -513,10 +513,18 @@ func ruleKind(w *World, r *Report) {
 				// flag | bits
 				if bo, okb := st.Val.(*ssa.BinOp); okb && bo.Op == token.OR {
 					x, y := bo.X, bo.Y
-					// fastOperator | (flag & otherPartMask)
-					if cx, okc := constInt(x); okc {
-						if and, oka := y.(*ssa.BinOp); oka && and.Op == token.AND {
-							if m, okm := constInt(and.Y); okm && m&k.mask == 0 && cx == k.fastOperator {
+					// fastOperator | (flag & otherPartMask), or fastOperator | (flag &^ kindMask); the constant on either side
+					fx, fy := x, y
+					if _, isC := fy.(*ssa.Const); isC {
+						fx, fy = fy, fx
+					}
+					if cx, okc := constInt(fx); okc {
+						if and, oka := fy.(*ssa.BinOp); oka && (and.Op == token.AND || and.Op == token.AND_NOT) {
+							m, okm := constInt(and.Y)
+							if and.Op == token.AND_NOT {
+								m = 0xFF &^ m
+							}
+							if okm && m&k.mask == 0 && cx == k.fastOperator {
 								ok, why := fastRewriteGate(w, k, st)
 								r.Check(ok, rule, pos, name, what, "operator -> fastOperator rewrite, gated by kind == operator, exactly two children, each a constant or variable", why)
 								return
@@ -622,6 +630,11 @@ func mayBits(v ssa.Value, depth int) (int64, bool) {
 			}
 			if m, ok := constInt(x.X); ok {
 				return m, true
+			}
+		case token.AND_NOT:
+			// x &^ m: the bits of m are cleared (the same as x & ^m over the 8-bit flag)
+			if m, ok := constInt(x.Y); ok {
+				return 0xFF &^ m, true
 			}
 		}
 	}
